@@ -18,7 +18,7 @@ func init() {
 	Register(&Prop{
 		ID: "C15",
 		Rule: "random histories of init / paired honest continuations / advance over instances {ref(cache 0), a(4096), b(1), c(4096 cold)} sharing a key, " +
-			"TTL in {20,100,3600} s, 1-3 interleaved streams, plus back-dated and post-dated hook-minted token pairs and call-token-less probes of warm caches; " +
+			"TTL in {20,100,3600} s (also changed at run time with SetTokenTTL), 1-3 interleaved streams, plus back-dated and post-dated hook-minted token pairs and call-token-less probes of warm caches; " +
 			"non-trivial = at least one advance and one paired continuation; distinct = distinct scripts",
 		Gen:  c15Gen,
 		Exec: tkExecProp("C15"),
@@ -112,7 +112,44 @@ func c15Gen(g *Gen) {
 			}
 			lines = append(lines, fmt.Sprintf("cont %s %s %s cur=$%s call=$%s cancel=0 sess=- out=- in=%s", inst, x.id, x.method, x.cur, y.call, Pick(r, []string{"i64", "i32"})))
 		}
-		switch r.Intn(6) {
+		// run-time reconfiguration: SetTokenTTL on every instance (the cache-less reference is switched
+		// off again, SetTokenTTL rebuilds the cache at the default size)
+		setTTL := func(newT int) {
+			for _, n := range []string{"ref", "a", "b", "c"} {
+				lines = append(lines, fmt.Sprintf("setttl %s %d", n, newT*1000))
+			}
+			lines = append(lines, "setcache ref 0")
+			if r.Bool() {
+				lines = append(lines, "setcache b 1")
+			}
+			T = newT
+		}
+		switch r.Intn(7) {
+		case 6:
+			// a stream is opened and used under a long TTL; the TTL is then shortened below the call token's
+			// age (fresh cursor): warm instances must refuse exactly like the cache-less one; and lengthened again
+			T = 100
+			for k := range lines {
+				lines[k] = strings.Replace(lines[k], fmt.Sprintf(" ttl=%d ", 20*1000), " ttl=100000 ", 1)
+				lines[k] = strings.Replace(lines[k], fmt.Sprintf(" ttl=%d ", 3600*1000), " ttl=100000 ", 1)
+			}
+			newStream()
+			s := streams[0]
+			inst := Pick(r, []string{"a", "b", "c"})
+			advance(r.Range(24, 40))
+			turn(s, inst)
+			turn(s, Pick(r, []string{"a", "b", "c"}))
+			setTTL(20)
+			turn(s, inst)
+			probe(s, inst)
+			turn(s, Pick(r, []string{"a", "b", "c"}))
+			setTTL(100)
+			turn(s, inst)
+			turn(s, Pick(r, []string{"a", "b", "c"}))
+			advance(5)
+			setTTL(Pick(r, []int{60, 3600}))
+			turn(s, inst)
+			probe(s, inst)
 		case 5:
 			// A's cursor is paired with B's younger call token on an instance that holds no entry for A
 			// (refused); A's own continuations there must then still see A's call — its stream id, its
@@ -183,6 +220,17 @@ func c15Gen(g *Gen) {
 				switch x := r.Intn(100); {
 				case (x < 8 || streams[len(streams)-1].refused >= 2) && len(streams) < 4:
 					newStream()
+				case x < 3:
+					nt := Pick(r, []int{20, 100, 3600})
+					ok := true
+					for _, st := range streams {
+						if !(st.curAge <= nt-3 || st.curAge >= nt+3) || !(st.callAge <= nt-3 || st.callAge >= nt+3) {
+							ok = false
+						}
+					}
+					if ok {
+						setTTL(nt)
+					}
 				case x < 12 && len(streams) >= 2:
 					mismatch(Pick(r, streams), Pick(r, streams), Pick(r, []string{"a", "b", "c"}))
 				case x < 60:
